@@ -20,7 +20,7 @@ namespace {
 
 struct Cover {
     uint64_t files = 0, bytesWritten = 0, bytesRead = 0, writeCalls = 0, appends = 0, truncations = 0, seeks = 0, sizeCalls = 0, readCalls = 0;
-    uint64_t reopens = 0, readerReuses = 0, sizeCallsWhileWriting = 0, sparseFiles = 0, descriptorChecks = 0;
+    uint64_t reopens = 0, readerReuses = 0, sizeCallsWhileWriting = 0, sparseFiles = 0, descriptorChecks = 0, seeksPastEnd = 0, twoFilesAtOnce = 0;
     uint64_t missingKinds[4] = {0, 0, 0, 0};
     uint64_t errorProbes = 0, emptyFiles = 0, withNul = 0, withFF = 0, withCRLF = 0, large = 0, nontrivialCases = 0;
     std::map<std::string, uint64_t> modes, classes;
@@ -138,6 +138,7 @@ void readBack(const std::string &path, const std::string &model, rt::Rng &rng, F
             ++C.seeks;
             unsigned o = (unsigned) rng.below(3);
             long target = size ? (long) rng.below((uint64_t) size + 1) : 0;
+            if (rng.chance(120)) { target = size + 1 + (long) rng.below(200); ++C.seeksPastEnd; }   // a position beyond the end is a valid position
             long off;
             File::Origin org;
             if (o == 0) { org = File::Origin::Start; off = target; }
@@ -156,8 +157,8 @@ void readBack(const std::string &path, const std::string &model, rt::Rng &rng, F
             (void) avail;
             long newPos = f.tell();
             size_t moved = (size_t) (newPos - pos);
-            if (newPos < pos || newPos > size) return fail("wrong-tell", site, "position left the file during read(buffer)");
-            if (memcmp(buf.data(), model.data() + pos, moved) != 0) return fail("wrong-bytes", site, "read(buffer, ...) " + firstDiff(buf.data(), moved, model.substr((size_t) pos, moved)));
+            if (newPos < pos || newPos > std::max(size, pos)) return fail("wrong-tell", site, "position left the file during read(buffer)");
+            if (pos <= size && memcmp(buf.data(), model.data() + pos, moved) != 0) return fail("wrong-bytes", site, "read(buffer, ...) " + firstDiff(buf.data(), moved, model.substr((size_t) std::min(pos, size), moved)));
             if (got > want) return fail("wrong-count", site, "read(buffer) returned more than requested");
             for (size_t k = moved; k < buf.size(); ++k) if (buf[k] != '\x5a') { fail("buffer-overrun", site, "read(buffer) wrote past the bytes it reported"); break; }
             C.bytesRead += moved;
@@ -364,6 +365,35 @@ void runCase(uint64_t c, rt::Rng rng, const std::string &dir, long maxLen) {
         verifyOnDisk(p2, append ? a + b : b, append ? "reopen-append" : "reopen-write");
         ++C.reopens;
     }
+    // two File objects open at the same time on one thread, used in turns: a chunked copy from one into the other and
+    // two writers fed alternately; what one of them buffers is its own
+    if (!gCaseFailed && rng.chance(200)) {
+        std::string src = dir + "/pair-src.bin", dst = dir + "/pair-dst.bin", w1 = dir + "/pair-w1.bin", w2 = dir + "/pair-w2.bin";
+        std::string body = content(rng, 1 + rng.below(200000), cls);
+        { File w(src, File::Mode::Write); w.write(body); }
+        {
+            File in(src, rng.chance(500) ? File::Mode::Read : File::Mode::ReadText), out(dst, File::Mode::Write);
+            std::vector<char> chunk(1 + rng.below(9000));
+            size_t n;
+            while ((n = in.read(chunk.data(), 1, chunk.size())) > 0) out.write(chunk.data(), n);
+        }
+        verifyOnDisk(dst, body, "two-files-copy");
+        if (!gCaseFailed) {
+            std::string a, b;
+            {
+                File fa(w1, File::Mode::Write), fb(w2, rng.chance(500) ? File::Mode::Write : File::Mode::WriteText);
+                int turns = (int) rng.range(2, 40);
+                for (int t = 0; t < turns; ++t) {
+                    std::string pa(1 + rng.below(3000), (char) ('a' + t % 26)), pb(1 + rng.below(3000), (char) ('A' + t % 26));
+                    fa.write(pa); a += pa;
+                    fb.write(pb); b += pb;
+                }
+            }
+            verifyOnDisk(w1, a, "two-files-writers");
+            if (!gCaseFailed) verifyOnDisk(w2, b, "two-files-writers");
+        }
+        ++C.twoFilesAtOnce;
+    }
     // one File object reads two different files one after the other: nothing of the first may stick
     if (!gCaseFailed && rng.chance(200)) {
         std::string pa = dir + "/reuse-a.bin", pb = dir + "/reuse-b.bin";
@@ -415,7 +445,7 @@ int main(int argc, char **argv) {
     rt::dumpFingerprints(C.fps);
     rt::finish(rt::Json().kv("engine", "h_file").kv("files", C.files).kv("bytesWritten", C.bytesWritten).kv("bytesRead", C.bytesRead)
                    .kv("writeCalls", C.writeCalls).kv("appendSessions", C.appends).kv("truncations", C.truncations).kv("seeks", C.seeks)
-                   .kv("sizeCalls", C.sizeCalls).kv("sizeCallsWhileWriting", C.sizeCallsWhileWriting).kv("sparseFilesOver2GiB", C.sparseFiles).kv("descriptorChecks", C.descriptorChecks).kv("readCalls", C.readCalls).kv("errorProbes", C.errorProbes).kv("reopenedOnSamePath", C.reopens).kv("readerObjectsReused", C.readerReuses).kv("missingBelowRegularFile", C.missingKinds[1]).kv("missingOverlongName", C.missingKinds[2]).kv("missingInMissingDirectory", C.missingKinds[3]).kv("emptyFiles", C.emptyFiles)
+                   .kv("sizeCalls", C.sizeCalls).kv("sizeCallsWhileWriting", C.sizeCallsWhileWriting).kv("sparseFilesOver2GiB", C.sparseFiles).kv("descriptorChecks", C.descriptorChecks).kv("seeksPastEnd", C.seeksPastEnd).kv("twoFilesOpenAtOnce", C.twoFilesAtOnce).kv("readCalls", C.readCalls).kv("errorProbes", C.errorProbes).kv("reopenedOnSamePath", C.reopens).kv("readerObjectsReused", C.readerReuses).kv("missingBelowRegularFile", C.missingKinds[1]).kv("missingOverlongName", C.missingKinds[2]).kv("missingInMissingDirectory", C.missingKinds[3]).kv("emptyFiles", C.emptyFiles)
                    .kv("filesWithNul", C.withNul).kv("filesWith0xFF", C.withFF).kv("filesWithCRLF", C.withCRLF).kv("filesOver1MB", C.large)
                    .kv("nontrivialCases", C.nontrivialCases).raw("contentClasses", rt::jsonCounts(C.classes)).raw("modes", rt::jsonCounts(C.modes))
                    .raw("samples", rt::jsonArray(C.samples, false)));
